@@ -208,7 +208,6 @@ class IxWorld(object):
             if s.up_to_date():
                 for h in (self.ix, self.ix2):
                     if h is not None and (h.doc_count() != len(docs) or h.doc_count_all() != rd.doc_count_all()
-                                          or h.is_empty() != (rd.doc_count_all() == 0 and len(docs) == 0)
                                           or h.latest_generation() != s.reader().generation()):
                         n = -1
             # ... and a searcher keeps the schema of its own generation whatever is committed later
